@@ -245,3 +245,23 @@ Proof.
     + intros i [<-|[]]. exists [AInt 1; AStr []]. split; [simpl; tauto|vm_compute; reflexivity].
   - split; [intros k []|intros i []].
 Qed.
+
+(* ------------------------------------------------------------------ recorded rounds *)
+
+(* The tie replays recorded rounds (settle_rounds: per round the dirty cells, the source rows and the summary
+   rows the engine had when the round began; reference clean-up of chained summary tables may rewrite cells
+   between rounds).  When nothing is rewritten - every round has the same source rows and starts from the table
+   the model itself has - that is settle_trace, to which C12_incremental_is_full applies. *)
+Theorem C12_recorded_rounds_are_the_trace : forall rounds kinds prev src summ,
+  rounds_follow kinds prev src summ rounds ->
+  settle_rounds kinds prev summ rounds =
+  settle_trace kinds prev src summ (map (fun r : round => fst (fst r)) rounds).
+Proof. exact settle_rounds_const. Qed.
+
+Example C12_example_rounds :
+  let prev := [(1, [2; 3]); (2, [4]); (3, [3])] in
+  let summ := [(2, [AInt 1; AStr [98]]); (3, [AInt 1; AStr [97]]); (4, [AInt 1; AStr []])] in
+  rounds_follow ex_kinds prev ex_src summ [([3], ex_src, summ); ([], ex_src, summ)] /\
+  settle_rounds ex_kinds prev summ [([3], ex_src, summ); ([], ex_src, summ)] =
+  Some [ (2, [AInt 1; AStr [98]], [1; 3]); (3, [AInt 1; AStr [97]], [1]); (4, [AInt 1; AStr []], [2]) ].
+Proof. split; [|vm_compute; reflexivity]. cbn [rounds_follow]. repeat split; vm_compute; reflexivity. Qed.
